@@ -42,13 +42,27 @@ def analyse(prop="C14"):
         a, n = A(v0), N(v0)
         return z3.Or(*[z3.And(n > j, z3.Select(a, j) == ord("!")) for j in (1, 2, 3, 4)])
 
+    def first_nonblank(v0):
+        sl = v0.val("the_line")
+        return FIRST_NONBLANK(sl.base.arr, sl.lo, sl.hi)
+
+    def blank(v0):
+        """a line of blanks (of any length) is a comment line"""
+        return first_nonblank(v0) == v0.val("the_line").hi
+
+    def comment_only_from_column_7(v0):
+        """the first character that is not a blank is a '!' standing in column 7 or later: '!' starts a comment anywhere but in column 6"""
+        r = first_nonblank(v0)
+        return z3.And(r < v0.val("the_line").hi, z3.Select(A(v0), r) == ord("!"), r > 5)
+
     def regular(v0):
         n = N(v0)
-        return z3.Not(z3.Or(z3.And(col1_comment(v0), z3.Not(omp(v0))), z3.And(bang_in_2_5(v0), z3.Not(col1_comment(v0))),
-                            z3.And(n > 0, z3.Select(A(v0), 0) == ord("#")), n <= 6))
+        return z3.Not(z3.Or(z3.And(col1_comment(v0), z3.Not(omp(v0))), z3.And(z3.Or(bang_in_2_5(v0), comment_only_from_column_7(v0)), z3.Not(col1_comment(v0))),
+                            z3.And(n > 0, z3.Select(A(v0), 0) == ord("#")), n <= 6, blank(v0)))
     c.ensures("comment_iff_column1_is_cC*!_and_not_an_OpenMP_sentinel",
               lambda v0, res, v1: flags(v1)["isComment"] == z3.And(col1_comment(v0), z3.Not(omp(v0))))
-    c.ensures("regular_iff_not_comment_cpp_or_short", lambda v0, res, v1: flags(v1)["is_regular"] == regular(v0))
+    c.assumed.append("str.lstrip(): FIRST_NONBLANK(arr, lo, hi) is the index of the first character of the line that is not white space (hi if there is none)")
+    c.ensures("regular_iff_not_comment_cpp_blank_or_short", lambda v0, res, v1: flags(v1)["is_regular"] == regular(v0))
     c.ensures("continuation_iff_regular_and_column6_not_blank_not_zero",
               lambda v0, res, v1: flags(v1)["isContinuation"] ==
               z3.And(regular(v0), N(v0) >= 6, z3.Not(isspace(z3.Select(A(v0), 5))), z3.Select(A(v0), 5) != ord("0")))
